@@ -580,6 +580,9 @@ def cases(rng, tier):
             a = rng.choice(addrs)
             ip, va, fl = rng.choice(GRID)
             yield ("c03_init", [["s", a + "/" + mask_text(rng, ver, m)], ip, _ver(va, ver), fl], "mask_v%d" % ver)
+            if rng.random() < 0.08:      # the mask text with something after it that only a lenient reader would swallow
+                yield ("c03_init", [["s", a + "/" + mask_text(rng, ver, m) + rng.choice(["\n", " ", "\t", "\n\n", "\x00"])], ip, _ver(va, ver), fl],
+                       "mask_trailing_v%d" % ver)
         # masks of the other family / other spellings
         for _ in range(40 if quick else 800):
             a = rng.choice(addrs)
